@@ -797,12 +797,30 @@ pub mod verif {
             self.raw.counter.load(Ordering::SeqCst)
         }
 
-        /// A worker dies: the connection queue's receiver is dropped first (field order of
-        /// `ServerWorker`); queued connections are dropped with it, without guards.
-        pub fn kill(self) {
-            let WorkerEnd { conn_rx, stop_rx, .. } = self;
-            drop(conn_rx);
-            drop(stop_rx);
+        /// Receive one queued connection without minting a guard (token, stream).
+        pub fn try_recv(&mut self) -> Option<(usize, MioStream)> {
+            self.conn_rx.try_recv().ok().map(|conn| (conn.token, conn.io))
+        }
+
+        /// Mint the guard a service call holds for one connection.
+        pub fn guard(&self) -> WorkerCounterGuard {
+            self.counter.guard()
+        }
+
+        /// Pending stop requests (graceful flag), acknowledged with `ack`.
+        pub fn try_recv_stop(&mut self, ack: bool) -> Option<bool> {
+            self.stop_rx.try_recv().ok().map(|Stop { graceful, tx }| {
+                let _ = tx.send(ack);
+                graceful
+            })
+        }
+
+        /// A worker dies: the connection queue's receiver goes away first (field order of
+        /// `ServerWorker`), so further sends fail; queued connections are dropped without guards.
+        pub fn kill(&mut self) {
+            self.conn_rx.close();
+            while self.conn_rx.try_recv().is_ok() {}
+            self.stop_rx.close();
         }
     }
 }
